@@ -151,6 +151,7 @@ structure Obs where
   bridged : Option Bridged   -- none: the process panicked
   exit : String
   direct : List (Nat × List PRep × List UInt8)
+  directClosed : List Nat := []   -- services that had closed their direct connection by the end of the session
   logsEqual : Option Bool    -- none: not observable in this mode
   upBridged : Option (List UInt8)
   upDirect : Option (List UInt8)
@@ -219,6 +220,11 @@ def P_C18 (nf : String → PRep) (mode client : String) (hasPayload pipelinedPay
     | some v => some v
     | none =>
       if b.ending != "open" then
+        -- behind a byte pump the end of the service's connection is the end of the session, as it is directly
+        if mode != "resolver" && mode != "bridge2" && routed.all (fun r => o.directClosed.contains r.target)
+            && !routed.isEmpty then
+          (if o.exit == "0" then none else some ("exit-status-" ++ o.exit))
+        else
         if exps.any (·.afterAbort) then some "bridge-exits-after-service-abort" else
         match lastCls with
         | some c => if stopsWithReply c then some ("bridge-returns-after-" ++ c.name)
